@@ -2127,6 +2127,69 @@ def scenario(sim, k):
             if rng.random() < 0.5:
                 ops += [["test"]] + sim.save() + [["test"]]
             return ops
+    if k == 22:
+        # the same object edited in memory several times between two synchronisations, then its file only touched
+        # (or really rewritten) on disk: what counts is what was last read from / written to the file, never an
+        # intermediate in-memory value
+        which = rng.choice(["img", "dat", "part", "glyph"])
+        n_edits = rng.randint(2, 3)
+        real = rng.random() < 0.25
+        if which in ("img", "dat"):
+            names = sorted((sim.mem_img & sim.disk_img) if which == "img" else (sim.mem_dat & sim.disk_dat))
+            if names:
+                n = rng.choice(names)
+                ops = [[which + "get", n]] if rng.random() < 0.5 else []
+                seeds = rng.sample(range(7, 12), n_edits)
+                ops += [[which, n, sd] for sd in seeds]
+                if rng.random() < 0.3:
+                    # ... one of them written by another program, byte for byte
+                    ops.append(["x" + which, n, "write", seeds[0], sim.time()])
+                elif real:
+                    ops.append(["x" + which, n, "write", rng.randint(12, 14), sim.time()])
+                else:
+                    ops.append(["x" + which, n, "touch", None, sim.time()])
+                return ops
+        if which == "part":
+            p = rng.choice(PARTS)
+            ops = [["touch", p]] + [["pset", p, gen_part_value(rng, p)] for _ in range(n_edits)]
+            if real:
+                ops.append(["xpart", p, "write", gen_part_value(rng, p), sim.time()])
+            else:
+                ops.append(["xpart", p, "touch", None, sim.time()])
+            return ops
+        if both:
+            gn = rng.choice(both)
+            sim.loaded[ln].add(gn)
+            sim.gspecs.pop((ln, gn), None)
+            ops = [["gset", ln, gn, g(gn)] for _ in range(n_edits)]
+            if real:
+                ops.append(["xglyph", ln, gn, "write", g(gn), sim.time()])
+            else:
+                ops.append(["xglyph", ln, gn, "touch", None, sim.time()])
+            return ops
+    if k == 23:
+        # loaded objects are rewritten by another program; the font is saved in place BEFORE it tests (the save rewrites
+        # only what it must: info, groups, lib always, kerning / features / glyphs / images / data when dirty), then tests:
+        # files the save left alone still hold the other program's bytes and must be reported
+        ops = []
+        for p in rng.sample(PARTS, rng.randint(1, 3)):
+            ops.append(["touch", p])
+            if rng.random() < 0.3:
+                ops.append(["pset", p, gen_part_value(rng, p)])
+        for p in rng.sample(PARTS, rng.randint(1, 3)):
+            if p != "lib" or rng.random() < 0.5:
+                ops.append(["xpart", p, "write", gen_part_value(rng, p), sim.time()])
+        if both and rng.random() < 0.6:
+            gn = rng.choice(both)
+            sim.loaded[ln].add(gn)
+            ops += [["gget", ln, gn]] + ([["gset", ln, gn, g(gn)]] if rng.random() < 0.3 else [])
+            ops.append(["xglyph", ln, gn, "write", g(gn), sim.time()])
+        for key, names in (("img", sim.mem_img & sim.disk_img), ("dat", sim.mem_dat & sim.disk_dat)):
+            if names and rng.random() < 0.4:
+                n = rng.choice(sorted(names))
+                ops += [[key + "get", n], ["x" + key, n, "write", rng.randint(7, 9), sim.time()]]
+        ops += sim.mem_op()
+        return ops + sim.save()
     if k == 11 and both:
         # a glyph removed on disk while it is loaded (and edited) in memory
         gn = rng.choice(both)
@@ -2174,12 +2237,14 @@ def gen_case(rng, tier):
                 ops += sim.save()
             # B. scripted pattern and/or a batch of external edits
             if rng.random() < 0.6:
-                ops += scenario(sim, rng.randrange(22))
+                ops += scenario(sim, rng.randrange(24))
             for _ in range(rng.randint(0, 3)):
                 ops += sim.x_op()
-            # C. in-memory ops while the external edits are unnoticed
+            # C. in-memory ops, or an in-place save, while the external edits are unnoticed
             if rng.random() < 0.3:
                 ops += sim.mem_op()
+            if rng.random() < 0.15:
+                ops += sim.save()
             # D. test, E. lazy reads right after it
             ops.append(["test"])
             if rng.random() < 0.6:
